@@ -45,6 +45,11 @@ class Worker:
                 "TMPDIR")
         env = {k: full[k] for k in keep if k in full}
         env["PYTOOLS_LOG_NO_THREADS"] = "1"
+        if os.environ.get("VERIF_FLEET_ENVDUMP"):
+            with open(os.environ["VERIF_FLEET_ENVDUMP"], "a") as f:
+                f.write(repr(sorted((k, len(v), v) for k, v in env.items()))
+                        + " ARGV " + repr([*_SETARCH, driver.PYTHON, WORKER])
+                        + " CWD " + driver.VERIF_DIR + "\n")
         self.proc = subprocess.Popen(
             [*_SETARCH, driver.PYTHON, "-X", "faulthandler", WORKER,
              str(prelude)],
@@ -75,8 +80,24 @@ class Worker:
             buf += chunk
         return pickle.loads(buf)
 
+    @staticmethod
+    def _encode(cmd, kwargs):
+        """The bytes of a command must be a function of its VALUE only: a
+        pickle of the kwargs would also encode which sub-objects happen to be
+        shared (a history straight from the generator and the same history
+        read back from a replay file pickle to different lengths), and message
+        sizes decide object addresses in the interpreter that receives them.
+        So: JSON text for everything JSON-able, raw bytes separately."""
+        import json
+        raw = {k: bytes(v) for k, v in kwargs.items()
+               if isinstance(v, (bytes, bytearray))}
+        rest = {k: v for k, v in kwargs.items() if k not in raw}
+        text = json.dumps(rest, sort_keys=True)
+        return pickle.dumps((cmd, text, sorted(raw.items())),
+                            protocol=pickle.HIGHEST_PROTOCOL)
+
     def call(self, cmd, **kwargs):
-        blob = pickle.dumps((cmd, kwargs), protocol=pickle.HIGHEST_PROTOCOL)
+        blob = self._encode(cmd, kwargs)
         try:
             self.proc.stdin.write(struct.pack("<Q", len(blob)) + blob)
             self.proc.stdin.flush()
@@ -91,7 +112,12 @@ class Worker:
     # raw protocol access (process actors: a rank running in this interpreter
     # talks to the orchestrator in the middle of a command)
     def send_cmd(self, cmd, **kwargs):
-        self.write_msg((cmd, kwargs))
+        blob = self._encode(cmd, kwargs)
+        try:
+            self.proc.stdin.write(struct.pack("<Q", len(blob)) + blob)
+            self.proc.stdin.flush()
+        except BrokenPipeError:
+            raise WorkerDied("broken pipe") from None
         self.ncalls += 1
 
     def write_msg(self, obj):
